@@ -153,6 +153,9 @@ class Signer(SuitEnvelopeSignerBase):
         self._context = context
         self._skip_signing = False
         self.envelope = input_envelope
+        if not isinstance(self.envelope.value, dict) and hasattr(self.envelope.value, "items"):
+            # Newer cbor2 releases decode the content of a tag into immutable containers
+            self.envelope = cbor2.CBORTag(self.envelope.tag, dict(self.envelope.value))
 
         self.init_kms_backend(kms_script)
         self.already_signed_action(already_signed_action)
